@@ -71,7 +71,9 @@ def check_definition(case):
     x.flags.writeable = False
     N = len(x)
     pr = case.get("prior")
-    if pr:
+    if pr and pr.get("refused") == "int16_only":
+        pr = dict(pr, sig=None)
+    if pr and pr.get("sig") is not None:
         y = make_signal(pr["sig"], DT[dt])
         if pr.get("chunked"):
             h = len(y) // 2
@@ -80,6 +82,22 @@ def check_definition(case):
             call("finalize (earlier utterance)", comp.finalize)
         else:
             call("compute_full (earlier utterance)", comp.compute_full, y)
+    if pr and pr.get("refused"):
+        # a rejected call (non-floating samples) is over when it has raised: the computer must still take the next signal
+        try:
+            comp.compute_full(np.arange(1, 40, dtype=np.int16))
+        except Exception:  # noqa - how integer input is rejected is not judged here
+            pass
+    if case.get("serialise"):
+        # the computer is pickled / deep-copied (sent to a worker process) before it is used here: serialising an object
+        # must not change the object
+        import copy
+        import pickle
+
+        try:
+            pickle.dumps(comp) if case["serialise"] == "pickle" else copy.deepcopy(comp)
+        except Exception:  # noqa - whether a computer can be serialised at all is not judged
+            pass
     got = call("compute_full(%s[%d])" % (dt, N), comp.compute_full, x)
     ncoef = bank.num_filts + int(spec["include_energy"])
     K = (N + S // 2) // S
@@ -186,14 +204,18 @@ def _cases(draw, dtypes=("f64", "f64", "f32", "f16", "ld")):
     if draw(st.integers(0, 59)) == 0:
         n = draw(st.sampled_from([4097, 8193]))
     prior = draw(st.one_of(st.none(), st.none(), st.fixed_dictionaries({
-        "sig": signal_specs(st.integers(0, 300)), "chunked": st.booleans()})))
+        # (often a click of a few samples: too short for a frame, so nothing of it is flushed by a final frame)
+        "sig": signal_specs(st.one_of(st.integers(0, 300), st.integers(1, 6), st.integers(1, 6))), "chunked": st.booleans(),
+        # the earlier use may also end with (or consist of) a call the computer rejects: integer samples
+        "refused": st.sampled_from([None, None, "int16", "int16_only"])})))
     return {"comp": comp, "dtype": draw(st.sampled_from(list(dtypes))), "sig": draw(signal_specs(st.just(n), SIGNAL_KINDS + EXTREME_KINDS)), "prior": prior,
-            "config": draw(log_floor_configs()), "sibling": draw(st.sampled_from([None, None, "before", "after"]))}
+            "config": draw(log_floor_configs()), "sibling": draw(st.sampled_from([None, None, "before", "after"])),
+            "serialise": draw(st.sampled_from([None, None, None, "pickle", "deepcopy"]))}
 
 
 def clauses(tier):
     return [
         Clause("definition", with_config(check_definition),
                "non-trivial = >= 2 frames and at least one full overlap-save block (N >= D - M + 1); distinct by full case",
-               _cases, quick=1000, thorough=40000, fuzz_runs=2500),
+               _cases, quick=750, thorough=40000, fuzz_runs=2500),
     ]
